@@ -5,6 +5,7 @@
 import PPV.Model.NumOps
 import PPV.Gen.KernelRun
 import PPV.Gen.ComponentRun
+import PPV.Model.GasResults
 import PPV.Gen.Idx
 import PPV.Model.AssembleRun
 import PPV.Model.OptionsRun
@@ -28,7 +29,10 @@ def handle (line : String) : String :=
     | none =>
       match PPV.Gen.ComponentRun.run name (args.map hexToFloat).toArray with
       | some r => " ".intercalate (r.toList.map floatToHex)
-      | none => "bad-kernel"
+      | none =>
+        match PPV.Model.GasResults.run name (args.map hexToFloat).toArray with
+        | some r => " ".intercalate (r.toList.map floatToHex)
+        | none => "bad-kernel"
   | "asm" :: mode :: n :: b :: _ =>
     -- the rest of the line after the 4th token is the `|`-separated field list
     let rest := (line.trimAscii.toString.splitOn "::").getD 1 ""
